@@ -178,8 +178,11 @@ TLSC = {'ca': f'{CERTS}/ca.crt'}
 
 def mk_hopB(splice, bufsz):
     p = {k: free_port() for k in ('http', 'https', 'socks', 'sockss', 'quic', 'api')}
+    p['http6'] = free_port(host='::1'); p['socks6'] = free_port(host='::1')
     cfg = {'listeners': [
         {'name': 'http', 'bind': f"127.0.0.1:{p['http']}"},
+        {'name': 'http6', 'type': 'http', 'bind': f"[::1]:{p['http6']}"},
+        {'name': 'socks6', 'type': 'socks', 'bind': f"[::1]:{p['socks6']}"},
         {'name': 'https', 'type': 'http', 'bind': f"127.0.0.1:{p['https']}", 'tls': TLSS},
         {'name': 'socks', 'bind': f"127.0.0.1:{p['socks']}"},
         {'name': 'sockss', 'type': 'socks', 'bind': f"127.0.0.1:{p['sockss']}", 'tls': TLSS},
@@ -201,10 +204,13 @@ def connector_cfg(cname, pb):
         'socks5+tls': [{'name': 'c', 'type': 'socks', 'server': 'localhost', 'port': pb['sockss'], 'tls': TLSC}],
         'socks4': [{'name': 'c', 'type': 'socks', 'server': '127.0.0.1', 'port': pb['socks'], 'version': 4}],
         'quic': [{'name': 'c', 'type': 'quic', 'server': 'localhost', 'port': pb['quic'], 'bind': '127.0.0.1:0', 'tls': TLSC}],
+        # the second hop reached over IPv6: whatever the proxy tells its client about the upstream socket is an IPv6 address then
+        'http-v6': [{'name': 'c', 'type': 'http', 'server': '::1', 'port': pb['http6']}],
+        'socks5-v6': [{'name': 'c', 'type': 'socks', 'server': '::1', 'port': pb['socks6'], 'version': 5}],
         'loadbalance': [{'name': 'd', 'type': 'direct'}, {'name': 'h', 'type': 'http', 'server': '127.0.0.1', 'port': pb['http']}, {'name': 'c', 'type': 'loadbalance', 'connectors': ['d', 'h'], 'algo': 'rr'}],
     }[cname]
 
-CONNS = ['direct', 'http', 'http+tls', 'socks5', 'socks5+tls', 'socks4', 'quic', 'loadbalance']
+CONNS = ['direct', 'http', 'http+tls', 'socks5', 'socks5+tls', 'socks4', 'quic', 'loadbalance', 'http-v6', 'socks5-v6']
 LISTS = ['http', 'http+tls', 'socks5', 'socks5+tls', 'socks4', 'socks4a', 'reverse']
 
 def mk_hopA(cname, pb, splice, bufsz):
@@ -665,6 +671,6 @@ samples.append({'sibling_failure': {k: str(v) for k, v in sibling_result.items()
 if evals < 100 or len(distinct) < 20:
     machinery(f'vacuous: evals={evals} distinct={len(distinct)}')
 cov = {'evaluations': evals, 'distinct_nontrivial': len(distinct), 'transitions': evals, 'traces_validated_against_impl': evals,
-       'rule': f'two real hops: listener {LISTS} x connector {CONNS} x (useSplice, bufferSize) in {modes} (quick: the full 7x8 matrix for both splice modes at 64 KiB, a rotation for the other buffer sizes); scripts: early data glued to the handshake + echo, origin-first banner, simultaneous bulk transfer of {BULK} bytes each way with position-dependent patterns and odd write sizes a receiver that does not read for 0.8 s while 8 MiB are sent at it, in each direction, ended by a half-close six fresh tunnels right after a tunnel was torn down with bytes still staged in the proxy (origin never read, then reset) (thorough: + three concurrent bulk tunnels)',
+       'rule': f'two real hops: listener {LISTS} x connector {CONNS} x (useSplice, bufferSize) in {modes} (quick: the full 7x10 matrix for both splice modes at 64 KiB, a rotation for the other buffer sizes); scripts: early data glued to the handshake + echo, origin-first banner, simultaneous bulk transfer of {BULK} bytes each way with position-dependent patterns and odd write sizes a receiver that does not read for 0.8 s while 8 MiB are sent at it, in each direction, ended by a half-close six fresh tunnels right after a tunnel was torn down with bytes still staged in the proxy (origin never read, then reset) (thorough: + three concurrent bulk tunnels)',
        'cells': len(cells), 'bulk_bytes': BULK, 'schedule_control': 'kernel', 'samples': samples}
 sys.exit(chk.finish('model_checking', cov, ['E4 part: real loopback sockets, kernel scheduling uncontrolled; TPROXY and a QUIC client as first hop are out of reach (QUIC is covered as second hop)']))
